@@ -275,6 +275,10 @@ def gen_track(rng, ppq, n_events, wf=True):
             evs.append((3, None, delta, None, None, None, None, n_, d_, None))
         elif k < 0.9:
             evs.append((2, None, delta, None, None, None, None, None, None, rng.choice(KEYNAMES)))
+        elif k < 0.94:
+            evs.append((4, rng.randrange(2), delta, None, rng.randrange(128), rng.choice([1, 7, 64]), None, None, None, None))   # control change (goes to the meta sequence)
+        elif k < 0.97:
+            evs.append((5, rng.randrange(2), delta, None, None, None, rng.randrange(128), None, None, None))     # program change (stays with its track)
         else:
             evs.append((1, None, delta, None, None, rng.randrange(9), None, None, None, None))   # uninterpreted event of some kind
     for (c2, note) in sorted(open_):
